@@ -192,6 +192,19 @@ theorem forIn_firstEq {α : Type} [BEq α] [LawfulBEq α] (xs : List α) (k d : 
         | true => simp at h; simp [h] at hx
       simp only [hx', Bool.false_eq_true, if_false, pure_bind, ih, List.contains_cons, hk, Bool.false_or]
 
+/-- `for _, x := range xs { if p(x) { r = append(r, x) } }` is `filter` -/
+theorem forIn_appendIf {α : Type} (l : List α) (p : α → Bool) (acc : List α) :
+    (forIn l acc (fun a r => if p a = true then (pure (ForInStep.yield (r ++ [a])) : Id _) else pure (ForInStep.yield r))) =
+      pure (acc ++ l.filter p) := by
+  induction l generalizing acc with
+  | nil => simp
+  | cons a l ih =>
+    rw [List.forIn_cons]
+    by_cases hp : p a = true
+    · simp only [hp, if_true, pure_bind, ih, List.filter_cons_of_pos]; simp
+    · simp only [hp, Bool.false_eq_true, if_false, pure_bind, ih]
+      simp [List.filter_cons, hp]
+
 /-! ### loops that may stop early (`return` / `break` inside `for .. range`) -/
 
 /-- a fold that stops at the first error, remembering the state it stopped in -/
